@@ -24,7 +24,7 @@
 
 __doc__="""Use OpenDocument to generate your documents."""
 
-import zipfile, time, uuid, sys, mimetypes, copy, os.path
+import zipfile, time, uuid, sys, mimetypes, copy, os.path, re
 
 # to allow Python3 to access modules in the same path
 sys.path.append(os.path.dirname(__file__))
@@ -1059,8 +1059,10 @@ def __fixXmlPart(xmlpart):
             elif c == u'>' and depth == 0:
                 start = i + 1
                 break
+    # attributes are separated by white space of any kind, not only by a blank
+    firstDeclaration = re.compile(u'[ \t\r\n]xmlns:')
     for prefix in requestedPrefixes:
-        if u' xmlns:{prefix}'.format(prefix=prefix) not in xmlpart[start:]:
+        if re.search(u'[ \t\r\n]xmlns:%s[ \t\r\n]*=' % prefix, xmlpart[start:]) is None:
             ###########################################
             # fixed a bug triggered by math elements
             # Notice: math elements are creectly exported to XHTML
@@ -1068,7 +1070,7 @@ def __fixXmlPart(xmlpart):
             # 2016-02-19 G.K.
             ###########################################
             try:
-                pos=result.index(u" xmlns:", start)
+                pos=firstDeclaration.search(result, start).start()
                 toInsert=u' xmlns:{prefix}="urn:oasis:names:tc:opendocument:xmlns:{prefix}:1.0"'.format(prefix=prefix)
                 result=result[:pos]+toInsert+result[pos:]
             except:
